@@ -34,7 +34,7 @@ def jobs(tier, seed):
                 for (k, g) in ((1, 1), (2, 1), (2, 2)):
                     out.append(('msm', str(b + lvl), k, g))
         out += [('plain', i) for i in structs.all_identities() if structs.kind_of(i) != 'msm']
-    out += [('reader', '1074', 1), ('reader', '1127', 2), ('reader', '1005', 2)]
+    out += [('reader', '1074', 1), ('reader', '1127', 2), ('reader', '1005', 2), ('reader', '1084', 2, 0), ('reader', '1096', 1, 0)]
     return out
 
 
@@ -228,7 +228,8 @@ def run_plain(spec, res):
 def run_reader(spec, res):
     """the reader passes its option through to every parse: reader(labelmsm=o) == RTCMMessage(payload, labelmsm=o)"""
     from pyrtcm.rtcmmessage import RTCMMessage
-    _, ident, opt = spec
+    ident, opt = spec[1], spec[2]
+    validate = spec[3] if len(spec) > 3 else 1
     if structs.kind_of(ident) == 'msm':
         d = h_C09.make_directed(ident, 1, 1)
     else:
@@ -245,7 +246,7 @@ def run_reader(spec, res):
         def hook(arg, r):
             if not isinstance(r, int) and len(arg) == len(frame):
                 eng.assume(r.t == 0)
-        run = rdrdrv.iterate(shims.SymStream(frame), mode=2, labelmsm=opt, crc_hook=hook)
+        run = rdrdrv.iterate(shims.SymStream(frame), mode=2, labelmsm=opt, validate=validate, crc_hook=hook)
         return run, RTCMMessage(payload=p, labelmsm=opt)
     for path in eng.explore(fn):
         if path.kind == 'abort':
@@ -266,7 +267,7 @@ def run_reader(spec, res):
             res['refuted'] += 1
             if eng.check3() == 'sat':
                 m = eng.solver.model()
-                res['cex'].append({'kind': 'labelopt', 'payload': d.payload_from_model(m).hex(), 'options': [opt], 'via_reader': True,
+                res['cex'].append({'kind': 'labelopt', 'payload': d.payload_from_model(m).hex(), 'options': [opt], 'via_reader': True, 'validate': validate,
                                    'why': "reader does not pass the label option through: " + "; ".join(bad[:3]), 'dedup': f"reader:{ident}:{opt}"})
         else:
             res['discharged'] += 1
